@@ -43,12 +43,16 @@ def cached(name, tier, seed, compute):
     val = compute()
     # keep the cache small: drop older entries of the same name
     for f in os.listdir(d):
-        if f.startswith(name + '-'):
+        if f.startswith(name + '-') and f.endswith('.pkl') and os.path.join(d, f) != path:
             try:
                 os.remove(os.path.join(d, f))
             except OSError:
                 pass
-    with open(path + '.tmp', 'wb') as f:
+    tmp = '%s.%d.tmp' % (path, os.getpid())        # (two checks sharing a run may finish at the same time)
+    with open(tmp, 'wb') as f:
         pickle.dump(val, f)
-    os.replace(path + '.tmp', path)
+    try:
+        os.replace(tmp, path)
+    except OSError:          # the cache is an optimisation only
+        pass
     return val
